@@ -658,13 +658,28 @@ DEVIATIONS = {
 }
 
 
+def ascii_safe(x):
+    """Re-encode every string of a trace injectively into ASCII (Python's unicode_escape: a character-wise code, so
+    concatenation and equality are preserved).  TLC 1.8 was observed to compare non-ASCII strings inconsistently
+    in large batches (equal strings built by \\o and read from JSON judged different: 43 spurious read-back
+    rejections in a batch of 2000 traces, none when the same traces were judged in a smaller batch or escaped)."""
+    if isinstance(x, str):
+        return x.encode('unicode_escape').decode('ascii')
+    if isinstance(x, list):
+        return [ascii_safe(y) for y in x]
+    if isinstance(x, dict):
+        return {k: ascii_safe(v) for k, v in x.items()}
+    return x
+
+
 def judge_all(ctx, items, timeout=1500):
     """items: list of (trace, case).  Judges with the property; re-judges rejected traces under every set of
     named deviations.  Reports violations (with the deviation as signature when one explains the trace)."""
-    traces = [t for t, _ in items]
+    traces = [ascii_safe(t) for t, _ in items]
     verdicts = ctx.judge('RespHeadersTrace', traces, 'RespHeadersTrace.cfg', timeout=timeout, workers=ctx.pick(8, 16))
     bad = []
     rejected = set()
+    safe = []
     for i, ((trace, case), v) in enumerate(zip(items, verdicts)):
         if v == 'ok':
             continue
@@ -673,6 +688,7 @@ def judge_all(ctx, items, timeout=1500):
             ctx.detail(clause, case, v)
         else:
             bad.append((trace, case, v))
+            safe.append(traces[i])
             rejected.add(i)
     ctx.progress('judge: %d traces, %d rejected under the property' % (len(traces), len(bad)))
     # which deviations explain a rejected trace: first every single one, then (for the rest) every set
@@ -683,7 +699,7 @@ def judge_all(ctx, items, timeout=1500):
             part = todo[off:off + 2000]
             path = os.path.join(ctx.scratch, 'rejected-%d.json' % off)
             with open(path, 'w') as f:
-                json.dump([bad[i][0] for i in part], f)
+                json.dump([safe[i] for i in part], f)
             r = ctx.tlc('RespHeadersTrace', cfg, env={'TRACE_FILE': path}, workers=ctx.pick(8, 16), timeout=timeout, count=False)
             for tag, fields in r.tuples:
                 if tag == 'VERDICT' and len(fields) >= 4 and (fields[1] == 'ok' or fields[1].startswith('D:')):
@@ -1071,7 +1087,7 @@ def selftest(ctx):
         m = copy.deepcopy(t)
         f(m)
         traces.append(m)
-    vs = ctx.judge('RespHeadersTrace', traces, 'RespHeadersTrace.cfg', workers=2)
+    vs = ctx.judge('RespHeadersTrace', [ascii_safe(m) for m in traces], 'RespHeadersTrace.cfg', workers=2)
     for (name, want, _), v in zip(muts, vs):
         print('%-36s %s' % (name, v))
         if v.split('|')[0] != want:
